@@ -91,6 +91,19 @@ CLAIMED.update({
             "DESIGN.md §3 C19", "error-discipline and taint/bound rules over go/ssa (abstract interpretation of the FEN placement loop, dominance-based length facts, call-graph reachability with argument-set proofs)"),
 })
 
+CLAIMED.update({
+    "C01": ("other",
+            "Decides the skeleton every correct generator of this design must have, on all paths: all 9 move kinds are emitted; at each of the "
+            "emit sites the destination set is bounded as its kind requires (empty squares / opponent pieces / push only onto empty, jump only "
+            "through an empty square onto the jump rank / promotions exactly on the promotion rank / e.p. only onto an existing target) and the "
+            "origin and piece are the ones iterated; the four castle emits are guarded by right, empty between-squares and own rook on the corner, "
+            "with masks, destination and the not-attacked squares agreeing with geometry derived in the checker; every ok-return of Position.Move "
+            "passed the in-check test on the post-move copy for the mover's colour after all updates (castling: not-attacked on the pre-move "
+            "position); LegalMoves is exactly the filter; emitted moves carry the emit parameters and the opponent's piece as Capture. Exactness "
+            "of the generated set for each concrete position additionally rests on C06 and is not decided.",
+            "DESIGN.md §3 C01", "abstract interpretation of the generator with bounded symbolic loops (each emit site seen once), conjunct-bound analysis of destination sets, path facts for guards"),
+})
+
 NOT_APPLICABLE = {
     "C11": "Transparency of the transposition table is a numeric equality between two complete searches over all positions x depths x table sizes x search sequences; no sound static abstraction in reach bounds it. Its shape-visible clauses are decided under C12 (no store after cancellation, exact bound only after a full loop), C04 (root exits) and C17 (slot discipline).",
 }
